@@ -108,7 +108,10 @@ def run_conditions(res, path, budget, module=None, jobs=16):
                                            case=dict(scenario='crosshair', file=path, function=r['cex']['call'][0], args=r['cex']['call'][1]),
                                            observed=rp, why=f'{r["name"]}({r["cex"]["call"][1][:200]}) is {"False" if rp.get("result") is False else rp.get("raised")} on the real code', count=1))
             else:
-                res.mismatches.append(dict(unit='crosshair:' + path, note='CrossHair counterexample did not reproduce', case=r['cex'], observed=rp))
+                # CrossHair's models of the environment (float repr, the in-memory file layer of c08_roundtrip) are approximations:
+                # a counterexample that does not reproduce on the real code / real files is no evidence of anything
+                entry['note'] = 'counterexample did not reproduce on the real code: discarded (inconclusive for this condition)'
+                res.inconclusive.append(dict(unit='crosshair:' + path, reason=f'{r["name"]}: CrossHair counterexample did not reproduce on the real code ({str(r["cex"].get("line"))[-160:]})'))
         else:
             # Not confirmed / unable to meet precondition / timeout: bug hunting only, nothing is claimed for this condition
             entry['note'] = 'no counterexample within the time budget; NOT a proof (CrossHair did not exhaust the paths)'
